@@ -30,7 +30,7 @@ def theorem_names():
 # ---------------------------------------------------------------- texts
 
 # texts every run starts with (they recur across sessions): string literals that span lines, tokens at the very end of the input
-SEED_TEXTS = ['let msg = "first line\nsecond line";\nlet z = 1;\n', 'let t = {a = "x\n\ny", b = "tail\n"};\n', 'let s = "ends without newline"',
+SEED_TEXTS = ['let greeting = "h\u00e9llo w\u00f6rld";\nlet x = greeting;\n', 'let msg = "first line\nsecond line";\nlet z = 1;\n', 'let t = {a = "x\n\ny", b = "tail\n"};\n', 'let s = "ends without newline"',
               'let m = "a\r\nb";\r\nlet n = 2;\r\n',
               # rejected at the end of the input, which ends with line breaks / blank lines
               'let x = 1\n', 'let a = 1;\nlet\n', 'let y = {a = 1\n\n', 'let z = [1, 2\r\n', 'let q = 1;\nlet w = q +\n  \n']
@@ -175,6 +175,19 @@ class Problem(Exception):
         self.kw = kw
 
 
+def column_sweep(rng, d, text):
+    """every column (in bytes, i.e. also the columns that fall inside a multi-byte character) of one line holding non-ASCII text,
+    for each position request"""
+    ls = doc_lines(text)
+    cand = [i for i, l in enumerate(ls) if any(ord(c) > 127 for c in l)]
+    if not cand or rng.random() < 0.4:
+        return []
+    line = rng.choice(cand)
+    n = min(len(ls[line].encode("utf-8")) + 2, 48)
+    kind = rng.choice(["completion", "hover", "definition"])
+    return [(kind if rng.random() < 0.8 else rng.choice(["completion", "hover", "definition"]), d, (line, c)) for c in range(n)]
+
+
 def gen_session(rng, root):
     ndocs = rng.randint(1, 3)
     docnames = ["doc%d.ucg" % i for i in range(ndocs)]
@@ -189,6 +202,7 @@ def gen_session(rng, root):
             t = gen_text(rng, docnames, d)
             msgs.append(("open", d, t))
             open_docs[d] = t
+            msgs.extend(column_sweep(rng, d, t))
             continue
         k = rng.random()
         if k < 0.3:
